@@ -4,6 +4,8 @@ go 1.23
 
 require (
 	github.com/anishathalye/porcupine v1.3.0
+	github.com/coreos/etcd v3.3.19+incompatible
+	github.com/dgraph-io/badger/v2 v2.0.3
 	github.com/golang/protobuf v1.3.5
 	github.com/marekgalovic/anndb v0.0.0
 )
@@ -11,8 +13,6 @@ require (
 require (
 	github.com/DataDog/zstd v1.4.1 // indirect
 	github.com/cespare/xxhash v1.1.0 // indirect
-	github.com/coreos/etcd v3.3.19+incompatible // indirect
-	github.com/dgraph-io/badger/v2 v2.0.3 // indirect
 	github.com/dgraph-io/ristretto v0.0.2-0.20200115201040-8f368f2f2ab3 // indirect
 	github.com/dgryski/go-farm v0.0.0-20190423205320-6a90982ecee2 // indirect
 	github.com/dustin/go-humanize v1.0.0 // indirect
